@@ -40,6 +40,28 @@ def rules(ctx, db):
                             guarded_by_variant(f, sbb, re.escape(t["fn"]) + "$", 0) is not None or \
                             call_matches(t, r"::fetch_add$"):
                         ok = True
+        if not ok:
+            # the reservation may live in a bool-returning helper of the pool (`try_reserve_slot()`): the spawn must be
+            # on its `true` edge, and inside the helper `true` is returned only on the success edge of an RMW on the counter
+            from ..util import bool_edges
+            for sbb in sp:
+                for cbb, t in f.calls():
+                    if f.local_ty(t["dst"]["l"]) != "bool":
+                        continue
+                    for h in db.callee_fns(t, expand_traits=False):
+                        if h.self_adt != "compio_driver::asyncify::AsyncifyPool":
+                            continue
+                        hr = [(b2, t2) for b2, t2 in atomic_calls(h) if call_matches(t2, RMW) and "counter" in receiver_field(h, t2)]
+                        if not hr:
+                            continue
+                        trues = [bi for bi, si, s2 in h.stmts() if "a" in s2 and s2["a"]["l"] == 0 and not s2["a"]["p"] and
+                                 any(o.get("k") == "true" for o in s2["r"].get("ops", []))]
+                        succ_ok = bool(trues) and all(any(
+                            guarded_by_variant(h, tb, re.escape(t2["fn"]) + "$", 0) is not None or call_matches(t2, r"::fetch_add$")
+                            for b2, t2 in hr) for tb in trues)
+                        on_true = any(tt != ft and f.cfg.edge_dominates(sb, tt, sbb) for (sb, tt, ft) in bool_edges(f, cbb))
+                        if succ_ok and on_true:
+                            ok = True
         ctx.ob("R1", "limit-check-and-admission-are-one-RMW", ok,
                "thread::spawn must be dominated by the success edge of an atomic RMW on the worker counter "
                "(fetch_update / compare_exchange / fetch_add) executed by the dispatcher: with a plain load, two "
